@@ -17,6 +17,7 @@ type Replay struct {
 	Name     string            `json:"name"`
 	Table    []rh.TOp          `json:"table,omitempty"`
 	Transit  *rh.TransitScript `json:"transit,omitempty"`
+	Strict   bool              `json:"strict,omitempty"` // transit script is protocol-conformant: exact-forwarding monitor applies
 	Book     []rh.BOp          `json:"book,omitempty"`
 	MaxConns int               `json:"max_conns,omitempty"`
 }
@@ -219,7 +220,7 @@ type tunnel struct {
 	ambig    bool // its own peer reused the live id
 }
 
-func monitorTransit(c *vh.Ctx, rp Replay, obs []rh.AObs) {
+func monitorTransit(c *vh.Ctx, rp Replay, obs []rh.AObs, strict bool) {
 	sc := rp.Transit
 	var live []tunnel
 	connected := map[int]bool{}
@@ -232,6 +233,14 @@ func monitorTransit(c *vh.Ctx, rp Replay, obs []rh.AObs) {
 			}
 		}
 		return
+	}
+	// ends of tunnels that were ever ambiguous (a peer reused a live id, outside C38):
+	// such a tunnel may leave a half-indexed entry behind, frames on its ends prove nothing
+	everAmbig := map[[3]uint64]bool{}
+	markAmbig := func(t *tunnel) {
+		t.ambig = true
+		everAmbig[[3]uint64{uint64(t.fam), uint64(t.up.peer), t.up.id}] = true
+		everAmbig[[3]uint64{uint64(t.fam), uint64(t.down.peer), t.down.id}] = true
 	}
 	// ever: bare ids (per family) that were at some time used by two live tunnels
 	everCollided := map[[2]uint64]bool{}
@@ -263,6 +272,9 @@ func monitorTransit(c *vh.Ctx, rp Replay, obs []rh.AObs) {
 				nextID[ev.Peer] = 1
 			}
 		case "disconnect":
+			if !connected[ev.Peer] {
+				break // no connection, no disconnect notification: nothing ends
+			}
 			connected[ev.Peer] = false
 			var keep []tunnel
 			for _, t := range live {
@@ -293,6 +305,9 @@ func monitorTransit(c *vh.Ctx, rp Replay, obs []rh.AObs) {
 					if failing[h] {
 						for j := range live {
 							t := &live[j]
+							if t.fam == f.Fam && (t.up == k || t.down == (tkey{h, d})) {
+								markAmbig(t) // the peer reused an id that is still live on its connection (outside C38)
+							}
 							if t.fam == f.Fam && (t.up.id == f.ID || t.down.id == d) && !(t.up == k) {
 								t.tainted = true
 								for _, id := range []uint64{t.up.id, t.down.id} {
@@ -312,7 +327,8 @@ func monitorTransit(c *vh.Ctx, rp Replay, obs []rh.AObs) {
 								continue
 							}
 							if t.up == nt.up || t.down == nt.down {
-								t.ambig, nt.ambig = true, true
+								markAmbig(t)
+								markAmbig(&nt)
 							} else if t.up.id == nt.up.id || t.down.id == nt.down.id {
 								t.tainted, nt.tainted = true, true
 								// a collision can orphan either index slot of either tunnel, so
@@ -326,7 +342,10 @@ func monitorTransit(c *vh.Ctx, rp Replay, obs []rh.AObs) {
 					}
 				}
 			case rh.KData, rh.KClose, rh.KReset, rh.KAck, rh.KErr:
-				if (f.Kind == rh.KReset && f.Fam != rh.TCP) || !connected[ev.From] {
+				// the exact-forwarding check applies to protocol-conformant scripts (fixed
+				// witnesses and the online generator); fully random scripts violate C38 and
+				// the one-connection-per-peer rule and only feed the model comparison
+				if !strict || (f.Kind == rh.KReset && f.Fam != rh.TCP) || !connected[ev.From] {
 					break
 				}
 				idx := find(f.Fam, k)
@@ -334,7 +353,7 @@ func monitorTransit(c *vh.Ctx, rp Replay, obs []rh.AObs) {
 					// (peer, id) is an end of two tunnels: the peer used an id of the other
 					// end's parity class (outside C38); which tunnel the frame means is undefined
 					for _, j := range idx {
-						live[j].ambig = true
+						markAmbig(&live[j])
 					}
 				}
 				if len(idx) == 1 && !live[idx[0]].ambig {
@@ -363,7 +382,7 @@ func monitorTransit(c *vh.Ctx, rp Replay, obs []rh.AObs) {
 					if f.Kind == rh.KClose || f.Kind == rh.KReset || f.Kind == rh.KErr {
 						live = append(live[:idx[0]], live[idx[0]+1:]...)
 					}
-				} else if len(idx) == 0 && len(o.Out) > 0 {
+				} else if len(idx) == 0 && len(o.Out) > 0 && !everAmbig[[3]uint64{uint64(f.Fam), uint64(ev.From), f.ID}] {
 					sig := "relay-misroute"
 					if collides(f.Fam, f.ID, -1) {
 						sig = "relay-bare-id-collision"
@@ -417,10 +436,10 @@ func witnesses() []Replay {
 			{Op: "insert", E: rh.Entry{UpPeer: 1, UpID: 3, DownPeer: 3, DownID: 1}},
 			{Op: "lookupboth", ID: 1, Peer: 2}, {Op: "lookupboth", ID: 1, Peer: 3}, {Op: "lookupdownfrom", ID: 1, Peer: 2}, {Op: "lookupdownfrom", ID: 1, Peer: 3},
 			{Op: "popdown", ID: 1, Peer: 2}, {Op: "popdown", ID: 1, Peer: 3}}},
-		{Kind: "transit", Name: "two-ingress-one-transit-tcp", Transit: two(rh.TCP)},
-		{Kind: "transit", Name: "two-ingress-one-transit-udp", Transit: two(rh.UDP)},
-		{Kind: "transit", Name: "two-ingress-one-transit-icmp", Transit: two(rh.ICMP)},
-		{Kind: "transit", Name: "udp-entry-survives-disconnect", Transit: &rh.TransitScript{Me: rh.TransitMe, Locals: []uint64{1, 2}, Events: append(rh.TransitPrologue(),
+		{Kind: "transit", Name: "two-ingress-one-transit-tcp", Strict: true, Transit: two(rh.TCP)},
+		{Kind: "transit", Name: "two-ingress-one-transit-udp", Strict: true, Transit: two(rh.UDP)},
+		{Kind: "transit", Name: "two-ingress-one-transit-icmp", Strict: true, Transit: two(rh.ICMP)},
+		{Kind: "transit", Name: "udp-entry-survives-disconnect", Strict: true, Transit: &rh.TransitScript{Me: rh.TransitMe, Locals: []uint64{1, 2}, Events: append(rh.TransitPrologue(),
 			frame(1, rh.UDP, rh.KOpen, 3, []int{3}, 31), frame(1, rh.ICMP, rh.KOpen, 3, []int{4}, 32),
 			rh.Event{Ev: "disconnect", Peer: 1}, rh.Event{Ev: "connect", Peer: 1},
 			frame(1, rh.UDP, rh.KData, 3, nil, 33), frame(1, rh.ICMP, rh.KClose, 3, nil, 0))}},
@@ -516,7 +535,7 @@ func main() {
 				}
 			}
 			c.Case(key.String(), maxLive >= 2, rp)
-			monitorTransit(c, rp, obs)
+			monitorTransit(c, rp, obs, rp.Strict)
 			coq = append(coq, rh.CoqACase(*rp.Transit, obs))
 		}
 	}
@@ -535,10 +554,27 @@ func main() {
 			r := root.Fork()
 			runOne(Replay{Kind: "table", Name: fmt.Sprintf("table-%d", i), Table: rh.GenTable(r, 4+r.Intn(14))})
 		}
-		for i, n := 0, c.N(70, 1000); i < n; i++ {
+		for i, n := 0, c.N(40, 1000); i < n; i++ {
 			r := root.Fork()
 			sc := rh.GenTransit(r, 6+r.Intn(24))
 			runOne(Replay{Kind: "transit", Name: fmt.Sprintf("transit-%d", i), Transit: &sc})
+		}
+		for i, n := 0, c.N(50, 800); i < n; i++ {
+			r := root.Fork()
+			run, err := rh.NewTransitRunner(rh.TransitMe, nil)
+			if err != nil {
+				c.Fail("panic", err.Error(), nil)
+				continue
+			}
+			var sc rh.TransitScript
+			p := vh.Recover(func() { sc, _, _ = rh.GenTransitHistory(r, 8+r.Intn(24), run) })
+			run.Close()
+			if p != "" {
+				c.Fail("panic", p, nil)
+				continue
+			}
+			// re-run from scratch like any other case (also proves the script replays)
+			runOne(Replay{Kind: "transit", Name: fmt.Sprintf("conformant-%d", i), Strict: true, Transit: &sc})
 		}
 		for i, n := 0, c.N(10, 150); i < n; i++ {
 			r := root.Fork()
